@@ -146,7 +146,7 @@ def run_property(prop, tier='quick', replay=None, root=None, write_evidence=True
         emit('%s self-test: %d mutants, %d detected, %d missed, %d stale' % (
             prop, st['mutants'], st['detected'], len(st['missed']), len(st['stale'])))
     for ff in ctx.floor_failures: emit('FLOOR-NOT-REACHED property=%s %s' % (prop, ff))
-    if write_evidence and replay is None:
+    if write_evidence and replay is None and not os.environ.get('VERIF_NO_EVIDENCE'):      # VERIF_NO_EVIDENCE: validation sweeps over scratch roots
         write_ev(prop, mod, ctx, tier, seed, time.time() - t0, viol, kf, st, stale)
     code = 1 if viol else 0
     if not viol and ctx.floor_failures:
